@@ -10,7 +10,7 @@ INFO = {
                   'every visit* that raises for an unsupported construct (discrete online, dense offline, dense online visitors, pastifiers)'],
     'bounds': {'quick': 'supported: every operator x monitor kind on 1-, 2- and 4-sample traces with symbolic values, with a declared-but-unused and a supplied-but-undeclared '
                         'variable and every order of the inputs; timed dense operators with windows over 3-4 sampling steps on 5-sample concrete grids; unsupported: operator x monitor-kind table (unbounded future online, prev/next/s_prev/s_next/rise/fall in dense time, '
-                        'bounded future and bounded until in the dense online monitor; the same after pastify(), incl. until[0,0]), bare and nested under another operator; several online objects in one process with interleaved calls, a reset or a rejected object in between',
+                        'bounded future and bounded until in the dense online monitor; the same after pastify(), incl. until[0,0]), bare and nested under another operator; several online objects in one process with interleaved calls, a reset or a rejected object in between; the output declared as a field of a user object (out.x = ...) over three updates; the four IA-STL semantics x io assignment x comparison operator x monitor kind on three samples',
                'thorough': 'longer traces, unsupported constructs nested at depth 2, bounds variety'},
     'outside': 'malformed data (wrong shapes, NaN, decreasing time-stamps); object-typed input variables (C06, C20 use them); an object-typed OUTPUT with a field is covered (out-field)',
     'assumptions': ['"no later than the first evaluation": the RTAMTException must come from parse(), pastify() or the first evaluate()/update()'],
@@ -100,6 +100,37 @@ def h_outfield(f, kind, K=3):
         for j, o in enumerate(outs):
             res += ct.wellformed(A, [list(p_) for p_ in o], label='out%d' % j)
         return res
+    return body
+
+
+def h_ia(f, kind, sem, io, N=3):
+    """interface-aware semantics (README_extensions): every evaluate()/update() of a supported formula returns normally under each of the
+    four IA-STL semantics and each io assignment of its variables"""
+    f = T(f)
+    vs = sorted(variables(f))
+
+    def body(env):
+        A = env.A
+        from .c06 import _sem
+        iod = {v: t for v, t in zip(vs, io) if t != 'default'}
+        fam, k = kind.split('-')
+        if fam == 'dt':
+            s = dt.make_spec('combined', 'out = ' + text(f), vs, io=iod, semantics=_sem(sem))
+            w = dt.trace(env, vs, N)
+            if k == 'offline':
+                d = {'time': list(range(N))}
+                d.update({v: list(w[v]) for v in vs})
+                out = [p_[1] for p_ in s.evaluate(d)]
+            else:
+                out = [s.update(i, [(v, w[v][i]) for v in vs]) for i in range(N)]
+            env.observe('out', out)
+            return [('returns-values', A.bool(len(out) == N))]
+        s = ct.make_spec('combined', 'out = ' + text(f), vs, io=iod, semantics=_sem(sem))
+        sigs = {v: ct.signal(env, v, N, 'zero', grid=list(range(N))) for v in vs}
+        args = [[v, [list(p_) for p_ in sigs[v]]] for v in vs]
+        out = s.evaluate(*args) if k == 'offline' else s.update(*args)
+        env.observe('out', [list(p_) for p_ in out])
+        return ct.wellformed(A, [list(p_) for p_ in out])
     return body
 
 
@@ -294,6 +325,20 @@ def obligations(tier, rng):
     for f in [G1, ('once_t', G1, 0, 1), ('and', G1, ('historically', ('leq', Y, ('const', 2.0)))), ('sub', X, Y)]:
         for kind in ('dt-offline', 'dt-online', 'dt-combinedon', 'ct-offline', 'ct-online', 'ct-combinedon', 'ct-combinedoff'):
             out.append(ob('C17', 'outfield', 'out-field/%s/%s' % (kind, text(f)), f=f, kind=kind, K=3, max_paths=30000, wall=900))
+    # interface-aware semantics: comparison operators x io assignment x semantics x monitor kind, three samples with arbitrary values
+    C1 = ('const', 1.0)
+    for sem in ('output_robustness', 'input_robustness', 'output_vacuity', 'input_vacuity'):
+        for op in (['eq', 'neq', 'geq'] if quick else ['eq', 'neq', 'geq', 'leq', 'lt', 'gt']):
+            for wrap in (lambda g: g, lambda g: ('always', g), lambda g: ('once', ('not', g))):
+                for io in (['input'], ['output'], ['default']):
+                    f = wrap((op, X, C1))
+                    for kind in ('ct-offline', 'ct-online', 'dt-offline', 'dt-online'):
+                        if kind.endswith('online') and refsem.has_future(f):
+                            continue
+                        out.append(ob('C17', 'ia', 'ia/%s/%s/x=%s/%s' % (kind, sem, io[0], text(f)), f=f, kind=kind, sem=sem, io=io, N=3, max_paths=30000, wall=900))
+                f = wrap((op, X, Y))
+                for io in (['input', 'output'], ['output', 'input']):
+                    out.append(ob('C17', 'ia', 'ia/ct-offline/%s/x=%s,y=%s/%s' % (sem, io[0], io[1], text(f)), f=f, kind='ct-offline', sem=sem, io=io, N=3, max_paths=30000, wall=900))
     # input orders
     for order in range(6):
         out.append(ob('C17', 'supported', 'order/dt-online/%d' % order, f=('since', ('and', X, Y), Z), N=3, kind='dt-online', extra='none', order=order))
